@@ -1,1 +1,82 @@
-From QCE Require Import C10.Proofs.
+(* C10 — Library circuits never double-book a qubit channel, whatever the configured durations are.
+
+   Vocabulary (C10/Model.v, C10/Run.v, C10/Proofs.v):
+   * `lin` = linear form over R, M, F, S (the four global durations), W (the decoupling wait max 0 ((R - M) / 2)) and the
+     constant tick; `mp` = non-empty list of `lin`, meaning the maximum; `eval_mp env`.
+   * `slisting ns` = the listing of the relation graph `ns` (Core.Model) computed ONCE with max-plus starts and ends;
+     `sduration ns` its duration; `seval env` evaluates one symbolic entry under a setting.
+   * `mp_le a b` = decidable sufficient order (every member of a is dominated by a member of b, where "dominated" may use
+     R, M, F, S, W >= 0 and 2W + M >= R).
+   * `cert_no_overlap ns` = every channel-sharing pair of the symbolic listing is ordered by mp_le (or both provably have
+     no length).
+   * admissible setting: `env_nonneg env` (R, M, F, S >= 0) and `env_parity env` ((R - M) mod 2 = 0 in ticks of 1/8: true
+     for durations that are multiples of 0.25, it makes the wait 0.5 (R - M) exact).
+   * `no_overlap` (Lib.Run) = clause 1 of the property, `barrier_clear` (C10.Run) = clause 2 including zero-length
+     operations strictly inside a barrier.
+   The quantifier over constructor inputs is NOT discharged by proof: the certificate is evaluated (vm_compute) on the
+   relation graph extracted from every generated library circuit; theorems named _partial say so. *)
+From Coq Require Import ZArith List Bool.
+Import ListNotations.
+From QCE Require Import Base.Prelude Core.Model Core.Run Lib.Run C10.Model C10.Run C10.Proofs.
+From Gen Require Import Ident Classes.
+Open Scope Z_scope.
+
+(* the symbolic scheduler is the model's scheduler: for every admissible setting the symbolic listing evaluates to the
+   listing of Core.Model (same leaves, same order, same starts and ends) *)
+Theorem C10_symbolic_listing_sound : forall ns sl env, env_nonneg env -> env_parity env -> slisting ns = Some sl ->
+  listing env ns = map (seval env) sl.
+Proof. exact symbolic_listing_sound'. Qed.
+Print Assumptions C10_symbolic_listing_sound.
+
+Theorem C10_symbolic_duration_sound : forall ns d env, env_nonneg env -> env_parity env -> sduration ns = Some d ->
+  comp_duration env ns = eval_mp env d.
+Proof. exact symbolic_duration_sound'. Qed.
+Print Assumptions C10_symbolic_duration_sound.
+
+(* the decidable order is sound under every admissible setting *)
+Theorem C10_mp_le_sound : forall a b, mp_le a b = true -> a <> [] -> b <> [] ->
+  forall env, env_nonneg env -> env_parity env -> eval_mp env a <= eval_mp env b.
+Proof. exact mp_le_sound'. Qed.
+Print Assumptions C10_mp_le_sound.
+
+(* ... and the parity hypothesis cannot be dropped: the fact 2W + M >= R fails in the model for R - M odd *)
+Theorem C10_wait_fact_without_parity_refuted :
+  exists env, env_nonneg env /\ ~ genv env GReadout <= 2 * wait_of env + genv env GMicrowave.
+Proof. exact wait_fact_needs_parity. Qed.
+Print Assumptions C10_wait_fact_without_parity_refuted.
+
+(* THE theorem: one evaluation of the certificate on a relation graph covers every admissible duration setting *)
+Theorem C10_certified : forall ns, cert_no_overlap ns = true -> forall env, env_nonneg env -> env_parity env ->
+  no_overlap (o_ops (model_obs env ns)) = true /\ barrier_clear (o_ops (model_obs env ns)) = true.
+Proof. exact certified. Qed.
+Print Assumptions C10_certified.
+
+(* unrolling never consults a duration, so the unrolled graph is the same under every setting ... *)
+Theorem C10_apply_modifiers_setting_independent : forall e1 e2 reps ns, apply_modifiers e1 reps ns = apply_modifiers e2 reps ns.
+Proof. exact apply_modifiers_env_indep. Qed.
+Print Assumptions C10_apply_modifiers_setting_independent.
+
+(* ... and a certificate computed after unrolling under any setting env0 covers every admissible setting *)
+Theorem C10_certified_unrolled : forall ns env0, cert_no_overlap (apply_modifiers env0 1 ns) = true ->
+  forall env, env_nonneg env -> env_parity env ->
+  no_overlap (o_ops (model_obs env (apply_modifiers env 1 ns))) = true
+  /\ barrier_clear (o_ops (model_obs env (apply_modifiers env 1 ns))) = true.
+Proof. exact certified_unrolled. Qed.
+Print Assumptions C10_certified_unrolled.
+
+(* partial (per generated constructor input): a library circuit that passes the tie of the check is overlap-free in the
+   model under EVERY admissible setting, as constructed and unrolled -- not only under the setting it was observed with *)
+Theorem C10_holds_all_settings_partial : forall c, agree c = true -> forall env, env_nonneg env -> env_parity env ->
+  let ns := lc_nodes (lib_of c) in
+  no_overlap (o_ops (model_obs env ns)) = true /\ barrier_clear (o_ops (model_obs env ns)) = true
+  /\ no_overlap (o_ops (model_obs env (apply_modifiers env 1 ns))) = true
+  /\ barrier_clear (o_ops (model_obs env (apply_modifiers env 1 ns))) = true.
+Proof. exact agree_all_settings. Qed.
+Print Assumptions C10_holds_all_settings_partial.
+
+(* the tie implies the judge: if model and implementation agree on the reported listing and the certificate holds, the
+   listing the IMPLEMENTATION reported satisfies the property's statement (spec_ok) *)
+Theorem C10_tie_implies_spec : forall c, agree c = true -> env_nonneg (lc_env (lib_of c)) -> env_parity (lc_env (lib_of c)) ->
+  spec_ok c = true.
+Proof. exact agree_implies_spec. Qed.
+Print Assumptions C10_tie_implies_spec.
